@@ -112,7 +112,7 @@ def body():
                         x = rng.rand(sd[kd].global_dof_count) + (1j * rng.rand(sd[kd].global_dof_count) if cplx else 0)
                         a, dd = A @ x, D @ x
                         e_ = np.abs(a - dd).max() / max(1e-12, np.abs(dd).max())
-                        if e_ > 1e-10:
+                        if not (e_ <= 1e-10):   # NaN counts as a deviation
                             chk.violation("fmm_vs_dense:%s:%s" % (name, cname.replace(" ", "_")), "%s: fmm and dense mat-vec differ by %.3g (%s vector)" % (label, e_, "complex" if cplx else "real"), {"case": label})
                             break
                 except Exception as exc:
@@ -125,7 +125,7 @@ def body():
                         f = api.GridFunction(sd[ks], coefficients=rng.rand(sd[ks].global_dof_count) + 1j * rng.rand(sd[ks].global_dof_count))
                         a, dd = fac(sd[ks], "fmm").evaluate(f), fac(sd[ks], "dense").evaluate(f)
                         e_ = np.abs(a - dd).max() / max(1e-12, np.abs(dd).max())
-                        if e_ > 1e-10:
+                        if not (e_ <= 1e-10):   # NaN counts as a deviation
                             chk.violation("fmm_vs_dense:%s:%s" % (name, cname.replace(" ", "_")), "%s: fmm and dense potentials differ by %.3g" % (label, e_), {"case": label})
                     except Exception as exc:
                         chk.violation("fmm_vs_dense:%s:exception" % name, "%s: %s: %s" % (label, type(exc).__name__, str(exc)[:160]), {"case": label})
@@ -175,7 +175,7 @@ def body():
                 A = np.asarray(fac(plain_space(bd), plain_space(bt), "dense").weak_form().to_dense())
                 dd = dfull(bt).T.dot(A).dot(dfull(bd)).dot(x)
                 e_ = np.abs(a - dd).max() / max(1e-12, np.abs(dd).max())
-                if e_ > 1e-10:
+                if not (e_ <= 1e-10):   # NaN counts as a deviation
                     chk.violation("fmm_vs_dense:%s:barycentric" % name, "%s: fmm mat-vec differs from D' A_dense D on the barycentric grid by %.3g" % (label, e_), {"case": label})
             except Exception as exc:
                 chk.violation("fmm_vs_dense:%s:barycentric:exception" % name, "%s: %s: %s" % (label, type(exc).__name__, str(exc)[:160]), {"case": label})
@@ -187,7 +187,7 @@ def body():
                 f = api.GridFunction(bsp[ks], coefficients=rng.rand(bsp[ks].global_dof_count) + 1j * rng.rand(bsp[ks].global_dof_count))
                 a, dd = fac(bsp[ks], "fmm").evaluate(f), fac(bsp[ks], "dense").evaluate(f)
                 e_ = np.abs(a - dd).max() / max(1e-12, np.abs(dd).max())
-                if e_ > 1e-10:
+                if not (e_ <= 1e-10):   # NaN counts as a deviation
                     chk.violation("fmm_vs_dense:%s:barycentric" % name, "%s: fmm and dense potentials differ by %.3g" % (label, e_), {"case": label})
             except Exception as exc:
                 chk.violation("fmm_vs_dense:%s:barycentric:exception" % name, "%s: %s: %s" % (label, type(exc).__name__, str(exc)[:160]), {"case": label})
@@ -204,7 +204,7 @@ def body():
                     x = rng.rand(sd[kd].global_dof_count) + 1j * rng.rand(sd[kd].global_dof_count)
                     a, dd = fac(sd[kd], st[kt], "fmm").weak_form() @ x, fac(sd[kd], st[kt], "dense").weak_form() @ x
                     e_ = np.abs(a - dd).max() / max(1e-12, np.abs(dd).max())
-                    if e_ > 1e-10:
+                    if not (e_ <= 1e-10):   # NaN counts as a deviation
                         chk.violation("dense_evaluation:%s" % name, "%s: fmm (library's direct far-field evaluator) and dense mat-vec differ by %.3g" % (label, e_), {"case": label})
                 except Exception as exc:
                     chk.violation("dense_evaluation:%s:exception" % name, "%s: %s: %s" % (label, type(exc).__name__, str(exc)[:160]), {"case": label})
@@ -215,7 +215,7 @@ def body():
                     f = api.GridFunction(sd[ks], coefficients=rng.rand(sd[ks].global_dof_count) + 1j * rng.rand(sd[ks].global_dof_count))
                     a, dd = fac(sd[ks], "fmm").evaluate(f), fac(sd[ks], "dense").evaluate(f)
                     e_ = np.abs(a - dd).max() / max(1e-12, np.abs(dd).max())
-                    if e_ > 1e-10:
+                    if not (e_ <= 1e-10):   # NaN counts as a deviation
                         chk.violation("dense_evaluation:%s" % name, "%s: fmm and dense potentials differ by %.3g" % (label, e_), {"case": label})
                 except Exception as exc:
                     chk.violation("dense_evaluation:%s:exception" % name, "%s: %s: %s" % (label, type(exc).__name__, str(exc)[:160]), {"case": label})
@@ -238,9 +238,9 @@ def body():
                 pa = p.laplace.single_layer(sp["P1"], pts, assembler="fmm").evaluate(api.GridFunction(sp["P1"], coefficients=x))
                 pd = p.laplace.single_layer(sp["P1"], pts, assembler="dense").evaluate(api.GridFunction(sp["P1"], coefficients=x))
                 chk.count(("cache", hist), True)
-                if np.abs(a - dd).max() > 1e-10 * np.abs(dd).max():
+                if not (np.abs(a - dd).max() <= 1e-10 * np.abs(dd).max()):   # NaN counts as a deviation
                     chk.violation("cache:boundary:%s" % hist, "after changing the global quadrature order from 2 to 4 a new FMM single layer differs from the dense one by %.3g (stale interface)" % (np.abs(a - dd).max() / np.abs(dd).max()), {"history": hist})
-                if np.abs(pa - pd).max() > 1e-10 * np.abs(pd).max():
+                if not (np.abs(pa - pd).max() <= 1e-10 * np.abs(pd).max()):   # NaN counts as a deviation
                     chk.violation("cache:potential:%s" % hist, "after changing the global quadrature order from 2 to 4 a new FMM potential differs from the dense one by %.3g (stale interface)" % (np.abs(pa - pd).max() / np.abs(pd).max()), {"history": hist})
             except Exception as exc:
                 chk.violation("cache:exception", "%s after changing the global order: %s" % (type(exc).__name__, str(exc)[:160]), {"history": hist})
@@ -257,13 +257,13 @@ def body():
             a = b.laplace.single_layer(sp["P1"], sp["P1"], sp["P1"], assembler="fmm", parameters=P).weak_form() @ x
             dd = b.laplace.single_layer(sp["P1"], sp["P1"], sp["P1"], assembler="dense", parameters=P).weak_form() @ x
             chk.count("explicit parameters", True)
-            if np.abs(a - dd).max() > 1e-10 * np.abs(dd).max():
+            if not (np.abs(a - dd).max() <= 1e-10 * np.abs(dd).max()):   # NaN counts as a deviation
                 chk.violation("explicit_parameters:boundary", "FMM single layer with an explicit parameter object (regular order 2, global 4) differs from the dense operator with the same object by %.3g" % (np.abs(a - dd).max() / np.abs(dd).max()), {})
             f = api.GridFunction(sp["P1"], coefficients=x)
             pa = p.helmholtz.double_layer(sp["P1"], pts, k, assembler="fmm", parameters=P).evaluate(f)
             pd = p.helmholtz.double_layer(sp["P1"], pts, k, assembler="dense", parameters=P).evaluate(f)
             chk.count("explicit parameters, potential", True)
-            if np.abs(pa - pd).max() > 1e-10 * np.abs(pd).max():
+            if not (np.abs(pa - pd).max() <= 1e-10 * np.abs(pd).max()):   # NaN counts as a deviation
                 chk.violation("explicit_parameters:potential", "FMM double-layer potential with an explicit parameter object (regular order 2, global 4) differs from the dense one with the same object by %.3g" % (np.abs(pa - pd).max() / np.abs(pd).max()), {})
         except Exception as exc:
             chk.violation("explicit_parameters:boundary", "FMM operator with an explicit parameter object raises %s: %s" % (type(exc).__name__, str(exc)[:160]), {})
